@@ -128,6 +128,14 @@ def handlers():
     return {s: signal.getsignal(getattr(signal, s)) for s in SIGS}
 
 
+def sigmask():
+    """Names of the signals blocked in the calling (main) thread - inherited by every child the shell starts."""
+    try:
+        return sorted(getattr(s, "name", str(s)) for s in signal.pthread_sigmask(signal.SIG_BLOCK, []))
+    except (AttributeError, OSError, ValueError):
+        return []
+
+
 def describe_handler(h):
     if h is signal.SIG_DFL:
         return "SIG_DFL"
@@ -177,6 +185,7 @@ def snapshot(XSH, tty_fd=None, live=False):
         "std_closed": [_is_closed(x) for x in std],
         "handler_ids": {k: id(v) for k, v in hs.items()},
         "handler_descr": {k: describe_handler(v) for k, v in hs.items()},
+        "sigmask": sigmask(),
     }
     if live:
         snap["_std"] = std
@@ -306,6 +315,8 @@ def diff_state(before, after, env_ignore=()):
     for s in SIGS:
         if before["handler_ids"][s] != after["handler_ids"][s]:
             probs.append("handler %s: %s -> %s" % (s, before["handler_descr"][s], after["handler_descr"][s]))
+    if before.get("sigmask", []) != after.get("sigmask", []):
+        probs.append("sigmask: blocked signals of the main thread %s -> %s" % (before.get("sigmask"), after.get("sigmask")))
     be, ae = before["env"], after["env"]
     for k in sorted(set(be) | set(ae)):
         if k in env_ignore:
